@@ -582,6 +582,24 @@ struct StrTarget
                     c.st.add("probe.compare_with_own_buffer");
                 }
             }
+            if ((v / 7) % 6 == 5 && len <= 256)
+            { // the other operand is an enormous (2^31 .. 2^32+k byte) zero-page mapping that starts with this string's
+              // content: only the common prefix is ever read, the order is decided by lengths that do not fit an int
+                static unsigned char *giant = nullptr; static size_t const GIANT = ((size_t)1 << 32) + 4096;
+                if (!giant) { void *m = mmap(nullptr, GIANT, PROT_READ | PROT_WRITE, MAP_PRIVATE | MAP_ANONYMOUS | MAP_NORESERVE, -1, 0); giant = m == MAP_FAILED ? nullptr : (unsigned char *)m; }
+                if (giant)
+                {
+                    static size_t const EXTRA[] = {((size_t)1 << 31) - 1, (size_t)1 << 31, ((size_t)1 << 31) + 1, ((size_t)1 << 32) - 1, (size_t)1 << 32, ((size_t)1 << 32) + 5};
+                    size_t const big = len + EXTRA[(v / 42) % 6];
+                    memcpy(giant, x.M.data(), len);
+                    c.site("a_str_cmpn"); int const g1 = a_str_cmpn(x.s, giant, big);
+                    c.site("a_str_cmp_"); int const g2 = a_str_cmp_(giant, big, a_str_ptr(s) ? a_str_ptr(s) : (char const *)giant, len);
+                    memset(giant, 0, len);
+                    c.st.add("probe.compare_with_giant_view");
+                    if (sgn(g1) != -1) { c.fail("comparison-wrong", "a_str_cmpn", "a %zu-byte string against a %zu-byte block with the same prefix gives sign %d, expected -1", len, big, sgn(g1)); break; }
+                    if (sgn(g2) != 1) { c.fail("comparison-wrong", "a_str_cmp_", "a %zu-byte block against its own %zu-byte prefix gives sign %d, expected 1", big, len, sgn(g2)); break; }
+                }
+            }
             switch ((int)(((o.a[0] % 4) + 4) % 4))
             {
             case 0: c.site("a_str_cmp"); got = a_str_cmp(x.s, y.s); want = ref_cmp(x.M, y.M); if (sgn(got) != want) c.fail("comparison-wrong", "a_str_cmp", "sign %d, bytewise-then-length order says %d", sgn(got), want); break;
